@@ -40,6 +40,9 @@ impl Offset {
     ///
     /// Returns an [`OutOfRange`](AstrolabeError::OutOfRange) error if the provided offset is not between `UTC-23:59:59` and `UTC+23:59:59`.
     pub fn from_hms(hour: i32, minute: u32, second: u32) -> Result<Self, AstrolabeError> {
+        if hour.unsigned_abs() > 23 {
+            return Err(create_simple_oor("hour", -23, 23, hour as i128));
+        }
         let mut seconds = time_to_day_seconds(hour.unsigned_abs(), minute, second)? as i32;
         seconds = if hour.is_negative() {
             -seconds
